@@ -102,6 +102,7 @@ def check(ctx):
     ctx.rule("C10-R3", "Find on a dictionary: .get(key), None -> the undefined marker, otherwise the stored value")
     ctx.rule("C10-R4", "arm order: no return precedes a dictionary arm unless a type test on the same operand excludes dictionaries")
     ctx.rule("C10-R5", "a key reaches the dictionary lookup/update as the operand (or its constant element), never reassigned or converted on the way")
+    ctx.rule("C10-R7", "value independence of the arm choice: the guards of the in-situ dictionary arms test only the kind and length of the operands, never the key or payload")
     ctx.rule("C10-R6", "Each over a dictionary iterates items() once and applies the verb once per pair; Size is len()")
 
     c04.check_dict_literal(ctx, repo, "C10-R1")
@@ -125,6 +126,17 @@ def check(ctx):
                     muts.append(x)
         ctx.ob("C10-R2", f.fq, f"the dictionary operand `{p}` is updated in place (store/del on {p} itself)", len(muts) == 1, node=ifn,
                construct=f"in-situ update of {p}", msg=f"the dictionary arm no longer updates `{p}` in place: aliases of the dictionary (other variables, function parameters) do not see the update")
+        # the arm is chosen by the kind and shape of the operands only, never by what the key or the payload is
+        params = set(f.params())
+        peek = []
+        for x in ast.walk(ifn.test):
+            if isinstance(x, ast.Subscript) and isinstance(x.value, ast.Name) and x.value.id in params:
+                peek.append(x)
+            elif isinstance(x, (ast.GeneratorExp, ast.ListComp, ast.SetComp)) and any(isinstance(g.iter, ast.Name) and g.iter.id in params for g in x.generators):
+                peek.append(x)
+        ctx.ob("C10-R7", f.fq, f"the guard of the dictionary arm on `{p}` does not inspect the key or the payload", not peek, node=peek[0] if peek else ifn,
+               construct=f"dict arm on {p} depends on the tuple's contents",
+               msg=f"the dictionary arm is taken only for some keys/payloads (`{src(peek[0])[:50] if peek else ''}` in its guard): for the others `[k v],d` builds a plain list, d is not updated and d?k stays undefined")
         rets = [x for n in ifn.body for x in walk_local(n) if isinstance(x, ast.Return)]
         ok = bool(rets) and all(isinstance(r.value, ast.Name) and r.value.id == p for r in rets) and always_exits(ifn.body)
         ctx.ob("C10-R2", f.fq, f"the arm returns the operand dictionary `{p}` itself", ok, node=ifn, construct=f"returns {p} itself",
@@ -250,6 +262,8 @@ MUTATION_SCOPE = ['dyads:eval_dyad_join',
                   'parser:list_to_dict']
 
 SEEDS = [
+    Seed("left-join-skips-dict-payload", "fault", "dyads", "    if isinstance(b,dict) and is_list(a) and len(a) == 2:", "    if isinstance(b,dict) and is_list(a) and len(a) == 2 and not any(isinstance(q,dict) for q in a):", rule="C10-R7"),
+    Seed("left-join-string-keys-only", "fault", "dyads", "    if isinstance(b,dict) and is_list(a) and len(a) == 2:", "    if isinstance(b,dict) and is_list(a) and len(a) == 2 and not is_list(a[0]):", rule="C10-R7"),
     Seed("literal-not-copied", "fault", "parser", "copy_lambda = KGLambda(lambda x: copy.deepcopy(x))", "copy_lambda = KGLambda(lambda x: x)", rule="C10-R1"),
     Seed("left-join-not-in-situ", "fault", "dyads", "        b[a[0]] = a[1]\n        return b", "        return {**b, a[0]: a[1]}", rule="C10-R2"),
     Seed("right-join-returns-copy", "fault", "dyads", "        a[b[0]] = b[1]\n        return a", "        a[b[0]] = b[1]\n        return dict(a)", rule="C10-R2"),
